@@ -12,7 +12,7 @@ R5 release at workflow end (C05.L3) and the reservation count follows the idle t
 import ast
 
 from ..index import AnalysisError, walk_no_nested
-from ..norm import Affine, Canon, Lit, Logic, ProvCanon, affine, effects_of_event, lit_le, lit_lt
+from ..norm import Affine, Canon, Lit, Logic, ProvCanon, affine, effects_of_event, lit_le, lit_lt, minmax_term
 from ..paths import Frame, cached_paths, expanded_paths, feasible
 from ..skel import outcomes
 from . import cluster_units as CU
@@ -171,7 +171,9 @@ def r2(repo, res, canon, pc, logic, plogic):
             allowed_max = {'floor((len(Cluster.machines))/(BatchProcessing.max_resources_split))',
                            'floor((len(Cluster))/(BatchProcessing.max_resources_split))',
                            'floor((len(%s))/(BatchProcessing.max_resources_split))' % cl}
-            if s == avail:
+            if any(A == minmax_term('min', [Affine({avail: 1}), Affine({m_: 1})]) for m_ in allowed_max):
+                pass      # min(available, floor(machines/partitions)) says the same in one expression
+            elif s == avail:
                 # capped by availability: must be below the partition size
                 if not any(lit_lt(avail, m_) in must for m_ in allowed_max):
                     okb, why = False, 'the reservation equals all available machines without being below floor(machines/partitions)'
